@@ -232,6 +232,10 @@ def classify(facts, body, src):
                 continue
             if c.matches(["DerefMut::deref_mut", "slice::iter_mut", "slice::iter", "Vec::iter_mut", "Vec::as_mut_slice"]) and len(c.args) == 1:
                 continue
+            # a method of a *local* metric applied to the element alone (`h.reset()`, `h.clear()`, `h.flush()` for every cached local): it touches that local's own cell,
+            # or hands its batch to the shared metric by commutative atomic additions (C12) -- each element once, in whatever order
+            if len(c.args) == 1 and re.search(r"::(GenericLocalCounter|LocalHistogram)::\w+$", strip_generics(c.callee or "")):
+                continue
             if c.matches(SORTS) and contains_term(c.args[0], elem) and not any(contains_term(a, elem) for a in c.args[1:]) and \
                     all((isinstance(a, tuple) and a and ((a[0] == "agg" and a[1] == "closure" and not a[3]) or a[0] in ("const", "fn"))) for a in c.args[1:]):
                 continue
